@@ -193,11 +193,33 @@ def check_case(case, collect=None):
                 pattrs = {n: nm[n][5:] for n in sorted(pnames)}
             caught = None
             try:
-                n = 0
-                for evt in stepper.run(max_steps=plan["max_steps"]):
-                    n += 1
-                    if n > 80:
-                        break
+                if case.get("drive") == "single_step":
+                    # the caller drives run_single_step() itself, the way run() does internally
+                    done = 0
+                    tries = 0
+                    while done < plan["max_steps"] and tries < 40:
+                        tries += 1
+                        try:
+                            for evt in stepper.run_single_step():
+                                pass
+                            done += 1
+                        except InjectedFault:
+                            raise
+                        except Exception as e2:
+                            nm2 = type(e2).__name__
+                            if nm2 == "FailStepException":
+                                continue
+                            if nm2 == "TransitionEvent":
+                                stepper.next_phase = e2.next_phase
+                                done += 1
+                                continue
+                            raise
+                else:
+                    n = 0
+                    for evt in stepper.run(max_steps=plan["max_steps"]):
+                        n += 1
+                        if n > 80:
+                            break
             except InjectedFault as e:
                 caught = e
             except Exception as e:
@@ -298,7 +320,8 @@ def shrink(sub, case):
 
 def shard(ctx, n):
     strat = st.fixed_dictionaries({"method": methods(PROFILE),
-                                   "plan": st.integers(1, 4).map(lambda k: {"max_steps": k})})
+                                   "plan": st.integers(1, 4).map(lambda k: {"max_steps": k}),
+                                   "drive": st.sampled_from(["run", "run", "single_step"])})
 
     def body(case):
         feats = method_features(case["method"])
@@ -308,7 +331,8 @@ def shard(ctx, n):
             seen["n"] += 1
             nontriv = (wrote_before or si >= 1) and npers >= 2
             ctx.note({"program": case, "site": site, "index": j, "backend": backend}, nontriv,
-                     ["fault_" + backend, "fault_in_step_%d" % min(si, 3), "fault_site_" + base_function(site)[6:]]
+                     ["fault_" + backend, "fault_in_step_%d" % min(si, 3), "fault_site_" + base_function(site)[6:],
+                      "driven_by_" + case.get("drive", "run")]
                      + (["fault_after_persistent_write"] if wrote_before else []),
                      sample={"site": site, "index": j, "backend": backend, "step": si,
                              "phases": [[p["name"], len(p["body"])] for p in case["method"]["phases"]],
